@@ -1,7 +1,12 @@
 //! C18: health check wrapper + selection.
 //! script = [n_res; failure_threshold; success_threshold; interval_ms; timeout_ms; initial_delay_ms;
-//!           strategy (0 FirstAvailable, 1 RoundRobin, 2 PreferHealthy, 3 Custom: last healthy,
-//!                     4 Custom: always Some(1), 5 Custom: always None);
+//!           strategy + 16 * route,
+//!             strategy (mod 16): 0 FirstAvailable, 1 RoundRobin, 2 PreferHealthy, 3 Custom: last healthy,
+//!                     4 Custom: always Some(1), 5.. Custom: always None;
+//!             route (div 16, mod 4): how the configuration reaches the wrapper:
+//!                     0 the wrapper builder's setters, 1 HealthCheckConfig::builder()...build() + with_config,
+//!                     2 with_config(decoy values) then every setter, 3 every setter with decoy values then
+//!                     with_config(the real values);
 //!           R (scripted checks per resource); n_ev;
 //!           (status 0 Healthy/1 Degraded/2 Unhealthy/3 Unknown, delay_ms)* R per resource, resource-major;
 //!           (op, arg)* n_ev]
@@ -9,12 +14,15 @@
 //!   op 1: call get_healthy() arg times     op 2: call get_usable() arg times
 //! The k-th check of resource i answers with the scripted status after sleeping delay_ms (a delay
 //! above the check timeout makes the wrapper time the check out); beyond R checks: Healthy at once.
-//! trace: per op 0: for each resource [status (get_health_details, cross-checked with get_status),
+//! trace: per op 0: for each resource [status (get_health_details; +100 if get_status(name) disagrees,
+//!        +200 if get_all_statuses disagrees),
 //!        consecutive_failures, consecutive_successes, checks started, checks finished];
 //!        per op 1/2: arg ints, the selected resource id or -1.
 use std::sync::{Arc, Mutex};
 use std::time::Duration;
-use tower_resilience_healthcheck::{HealthCheckWrapper, HealthChecker, HealthStatus, SelectionStrategy};
+use tower_resilience_healthcheck::{
+    HealthCheckConfig, HealthCheckWrapper, HealthChecker, HealthStatus, SelectionStrategy,
+};
 use verif_harness::*;
 
 struct Shared {
@@ -72,7 +80,8 @@ fn run(s: &[i128]) -> Vec<i128> {
     let n = zn(s, 0).max(0) as usize;
     let (ft, stt) = (zn(s, 1) as u32, zn(s, 2) as u32);
     let (interval, timeout, init) = (zn(s, 3) as u64, zn(s, 4) as u64, zn(s, 5) as u64);
-    let strat = zn(s, 6);
+    let strat = zn(s, 6).rem_euclid(16);
+    let route = zn(s, 6).div_euclid(16).rem_euclid(4);
     let r = zn(s, 7).max(0) as usize;
     let n_ev = zn(s, 8).max(0) as usize;
     let mut table = Vec::new();
@@ -98,15 +107,70 @@ fn run(s: &[i128]) -> Vec<i128> {
         for i in 0..n {
             b = b.with_context(i as i128, format!("r{}", i));
         }
-        let w = b
-            .with_checker(Scripted(sh.clone()))
-            .with_interval(Duration::from_millis(interval))
-            .with_timeout(Duration::from_millis(timeout))
-            .with_initial_delay(Duration::from_millis(init))
-            .with_failure_threshold(ft)
-            .with_success_threshold(stt)
-            .with_selection_strategy(strategy)
-            .build();
+        let b = b.with_checker(Scripted(sh.clone()));
+        let ms = Duration::from_millis;
+        // values that differ from the scripted ones and from the defaults in every field
+        let decoy = || {
+            HealthCheckConfig::builder()
+                .interval(ms(interval + 3))
+                .timeout(ms(timeout + 2))
+                .initial_delay(ms(init + 1))
+                .failure_threshold(ft.wrapping_add(3))
+                .success_threshold(stt.wrapping_add(2))
+                .selection_strategy(SelectionStrategy::Custom(Arc::new(|_st: &[HealthStatus]| Some(0))))
+                .build()
+        };
+        let w = match route {
+            0 => b
+                .with_interval(ms(interval))
+                .with_timeout(ms(timeout))
+                .with_initial_delay(ms(init))
+                .with_failure_threshold(ft)
+                .with_success_threshold(stt)
+                .with_selection_strategy(strategy)
+                .build(),
+            1 => b
+                .with_config(
+                    HealthCheckConfig::builder()
+                        .interval(ms(interval))
+                        .timeout(ms(timeout))
+                        .initial_delay(ms(init))
+                        .failure_threshold(ft)
+                        .success_threshold(stt)
+                        .selection_strategy(strategy)
+                        .build(),
+                )
+                .build(),
+            2 => b
+                .with_config(decoy())
+                .with_selection_strategy(strategy)
+                .with_success_threshold(stt)
+                .with_failure_threshold(ft)
+                .with_initial_delay(ms(init))
+                .with_timeout(ms(timeout))
+                .with_interval(ms(interval))
+                .build(),
+            _ => {
+                let d = decoy();
+                b.with_interval(d.interval())
+                    .with_timeout(d.timeout())
+                    .with_initial_delay(d.initial_delay())
+                    .with_failure_threshold(d.failure_threshold())
+                    .with_success_threshold(d.success_threshold())
+                    .with_selection_strategy(SelectionStrategy::Custom(Arc::new(|_st: &[HealthStatus]| Some(0))))
+                    .with_config(
+                        HealthCheckConfig::builder()
+                            .interval(ms(interval))
+                            .timeout(ms(timeout))
+                            .initial_delay(ms(init))
+                            .failure_threshold(ft)
+                            .success_threshold(stt)
+                            .selection_strategy(strategy)
+                            .build(),
+                    )
+                    .build()
+            }
+        };
         w.start().await;
         settle().await;
         let mut tr = Vec::new();
@@ -120,11 +184,15 @@ fn run(s: &[i128]) -> Vec<i128> {
                     }
                     settle().await;
                     let det = w.get_health_details().await;
+                    let all = w.get_all_statuses().await;
                     for (i, d) in det.iter().enumerate() {
                         let by_name = w.get_status(&format!("r{}", i)).await;
                         let mut c = code(d.status);
                         if by_name != Some(d.status) || d.name != format!("r{}", i) {
                             c += 100;
+                        }
+                        if all.get(i) != Some(&(format!("r{}", i), d.status)) || all.len() != det.len() {
+                            c += 200;
                         }
                         tr.extend([
                             c,
